@@ -514,6 +514,33 @@ def d_class_of(src):
     return None
 
 
+MF_IMPORTS = ['import "embed"\n\nvar _ embed.FS\n', 'import _ "embed"\n', 'import (\n\t"unsafe"\n\t_ "embed"\n)\n\nvar _ unsafe.Pointer\n',
+              'import e "embed"\n\nvar _ e.FS\n', "", "", 'import "unsafe"\n\nvar _ unsafe.Pointer\n']
+
+
+def gen_multifile(rng, n):
+    """packages of 2-3 files; each file independently imports embed (plainly, blank, renamed) or not, and carries 0-2
+    directives on string / []byte variables (embed.FS only where the file can name the type)"""
+    out = [
+        [("a.go", 'package p\n\nimport _ "embed"\n\n//go:embed a\nvar A string\n'), ("b.go", "package p\n\n//go:embed b\nvar B string\n")],
+        [("a.go", "package p\n\n//go:embed a\nvar A []byte\n"), ("b.go", 'package p\n\nimport _ "embed"\n\n//go:embed b\nvar B string\n')],
+        [("a.go", 'package p\n\nimport _ "embed"\n\n//go:embed a\nvar A string\n'), ("b.go", 'package p\n\nimport _ "embed"\n\n//go:embed b\nvar B []byte\n')],
+        [("a.go", "package p\n\n//go:embed a\nvar A string\n"), ("b.go", "package p\n\nvar B string\n")],
+    ]
+    while len(out) < n:
+        files = []
+        for k in range(rng.choice([2, 2, 3])):
+            imp = rng.choice(MF_IMPORTS)
+            text = "package p\n\n" + imp + "\n"
+            for j in range(rng.choice([0, 1, 1, 2])):
+                pat = rng.choice(["a", "b", "x", "c.txt", "d/f", "*.txt"])
+                typ = rng.choice(["string", "[]byte"])
+                text += "//go:embed %s\nvar V%d_%d %s\n\n" % (pat, k, j, typ)
+            files.append(("f%d.go" % k, text))
+        out.append(files)
+    return out[:n]
+
+
 def gen_directive_src(rng):
     """random single-var sources from a small alphabet (the malformed stream)"""
     toks = ["a", "b", "x", "\"a b\"", "`c.txt`", "d", "all:d", "*.txt", "nosuch", "\"a\"", "'a'", "a\u00a0b", "\"a\"\"b\"",
@@ -608,13 +635,22 @@ def parse_module(text):
             raise ValueError("length out of range: " + v)
         return data[:n]
 
-    res = {"S": None, "B": None, "F": None, "n": None}
+    def backing(v):
+        m = re.match(r"\{ ptr (?:@(\d+)|null), i64 (\d+)", v.strip())
+        return m.group(1) if m else None
+
+    res = {"S": None, "B": None, "F": None, "n": None, "B2": None, "B_store": None, "B2_store": None}
+    m = re.search(r'^@p\.B2 = global %"[^"]*\.Slice" (.*?), align', text, flags=re.M)
+    if m:
+        res["B2"] = strval(m.group(1))
+        res["B2_store"] = backing(m.group(1))
     m = re.search(r'^@p\.S = global %"[^"]*\.String" (.*?), align', text, flags=re.M)
     if m:
         res["S"] = strval(m.group(1))
     m = re.search(r'^@p\.B = global %"[^"]*\.Slice" (.*?), align', text, flags=re.M)
     if m:
         res["B"] = strval(m.group(1))
+        res["B_store"] = backing(m.group(1))
     if re.search(r"^@p\.F = ", text, flags=re.M):
         init = re.search(r"define void @p\.init\(\).*?^}", text, flags=re.M | re.S)
         table = {}
@@ -800,6 +836,7 @@ def run(ctx, args):
     n_trees = 200 if quick else 2200
     n_state = 90 if quick else 900
     n_dir_rand = 60 if quick else 500
+    n_multi = 40 if quick else 300
     n_fn = 1500 if quick else 30000
 
     st = lean_check(ctx, ["LlgoVerif.Props.C16"], ["LlgoVerif/Props/C16.lean"],
@@ -891,6 +928,18 @@ def run(ctx, args):
         with open(os.path.join(pdir, b"p.go"), "wb") as f:
             f.write(src)
         dcases.append({"kind": "directive", "name": name, "body": body, "dir": pdir, "class": d_class_of(body), "declared": cls})
+    # multi-file packages: `//go:embed` is only allowed in Go FILES that import "embed" (the rule is per file, not per
+    # package); string / []byte variables need no embed.FS, so a file can carry a directive without the import.
+    # The whole package directory is loaded (every .go file, name order); oracle: go list + go build of the same directory.
+    for i, files in enumerate(gen_multifile(rng, n_multi)):
+        name = "mf%04d" % i
+        pdir = os.path.join(mod, name.encode())
+        materialise(pdir, D_TREE)
+        for fn, text in files:
+            with open(os.path.join(pdir, fn.encode()), "wb") as f:
+                f.write(text.encode())
+        body = "\n".join("// file %s\n%s" % (fn, text) for fn, text in files)
+        dcases.append({"kind": "directive", "name": name, "body": body, "dir": pdir, "class": None, "declared": None, "entry": pdir})
 
     # //line directives: twin files in every directory a //line may name
     abs_twin = os.path.join(outside, b"labs")
@@ -930,7 +979,7 @@ def run(ctx, args):
     G = go_list(mod.decode("utf-8", "surrogateescape"))
     G2 = go_list(mod2.decode("utf-8", "surrogateescape"))
     bad_build, build_err = go_build_status(mod.decode("utf-8", "surrogateescape"),
-                                           sorted(n for n, o in G.items() if n[0] in "dl" and n[1:].isdigit() and not o.get("Error")))
+                                           sorted(n for n, o in G.items() if re.fullmatch(r"(d|l|mf)\d+", n) and not o.get("Error")))
     ctx.log("go list: %d + %d packages; go build: %d packages rejected" % (len(G), len(G2), len(bad_build)))
     if os.environ.get("C16_DEBUG"):
         ctx.log(build_err[:1500])
@@ -953,7 +1002,7 @@ def run(ctx, args):
     for c in mcases:
         lr.append("resolve %s %s" % (hexs(c["dir"]), " ".join(hexs(p) for p in c["pats"])))
     for c in dcases:
-        lr.append("load %s" % hexs(os.path.join(c["dir"], b"p.go")))
+        lr.append("load %s" % hexs(c.get("entry") or os.path.join(c["dir"], b"p.go")))
     for c in lcases:
         lr.append("loadd %s" % hexs(os.path.join(c["dir"], b"p.go")))
 
@@ -1251,7 +1300,7 @@ def run(ctx, args):
                 head = b""
             if re.search(rb"[\n\r:]", etw if lk == 1 else b""):
                 head = b""
-            src = head + b"package p\n\nimport \"embed\"\n\n//go:embed " + lit + b"\nvar S string\n\n//go:embed " + lit + b"\nvar B []byte\n\n" + line + b"\nvar F embed.FS\n"
+            src = head + b"package p\n\nimport \"embed\"\n\n//go:embed " + lit + b"\nvar S string\n\n//go:embed " + lit + b"\nvar B []byte\n\n//go:embed " + lit + b"\nvar B2 []byte\n\n" + line + b"\nvar F embed.FS\n"
             with open(os.path.join(pdir, b"p.go"), "wb") as f:
                 f.write(src)
             with open(os.path.join(pdir, b"dump.go"), "wb") as f:
@@ -1302,6 +1351,11 @@ def run(ctx, args):
                 bad = "string variable: llgo module %r, Go program %r" % (got["S"], want["S"])
             elif got["B"] != want["B"]:
                 bad = "[]byte variable: llgo module %r, Go program %r" % (got["B"], want["B"])
+            elif got["B2"] != want["B"]:
+                bad = "second []byte variable embedding the same file: llgo module %r, Go program %r" % (got["B2"], want["B"])
+            elif want["B"] and got["B_store"] is not None and got["B_store"] == got["B2_store"]:
+                # Go gives every []byte variable its own copy of the file: writing through one must not show in the other
+                bad = "two []byte variables embedding the same file share ONE backing array (@%s): a write through B is visible in B2" % got["B_store"]
             elif got["F"] is None:
                 bad = "embed.FS variable has no file table"
             else:
